@@ -156,9 +156,30 @@ def check_roundtrip(spec, ctx):
         ctx.eq("to_dict_qualifiers_are_the_source_qualifiers", qn(x.to_dict().get("qualifiers")), qn(o.get("qualifiers")))
         if any(len(vs_) == 0 or "" in vs_ for vs_ in (o.get("qualifiers") or {}).values()):
             ctx.label("valueless_qualifier")
+    # the exported blocks are the source's blocks, start paired with its own end
+    if kind in ("feat", "tx") and not spec.get("chunk"):
+        src = o["blocks"] if kind == "feat" else o["exons"]
+        d_ = x.to_dict()
+        ks, ke = ("interval_starts", "interval_ends") if kind == "feat" else ("exon_starts", "exon_ends")
+        ctx.eq("to_dict_blocks_are_the_source_blocks", sorted(zip(d_[ks], d_[ke])), sorted(tuple(b_) for b_ in src))
+        if any(a_[0] < b_[0] and b_[1] < a_[1] for a_ in src for b_ in src):
+            ctx.label("nested_blocks")
     # dictionary export/import
     y = CLS[kind].from_dict(copy.deepcopy(x.to_dict()), parent_of(spec))
     same_object(ctx, "dict_roundtrip", x, y, with_seq)
+    # an exported dictionary is the caller's document: importing it (twice, e.g. onto two parents) leaves it as exported, and the
+    # second import is the same object as the first
+    d1 = x.to_dict()
+    snap = copy.deepcopy(d1)
+    try:
+        CLS[kind].from_dict(d1, parent_of(spec))
+        yb = CLS[kind].from_dict(d1, parent_of(spec))
+        same_object(ctx, "second_import_of_the_same_dict", x, yb, with_seq)
+    except Exception as e:
+        ctx.fail("second_import_of_the_same_dict_raises", repr(e)[:120])
+    ctx.eq("import_leaves_the_dict_as_exported", nd(d1), nd(snap))
+    if spec.get("issued_guids"):
+        ctx.label("caller_issued_guids")
     # dictionary form survives JSON (UUIDs as strings are accepted back)
     if kind == "collection":
         d = x.to_dict(export_parent=True)
@@ -311,6 +332,20 @@ def check_sensitivity(spec, ctx):
 # ------------------------------------------------------------------------------------ strategies
 
 
+def _nest(draw, blocks):
+    """one time in five: add a block nested strictly inside one of the blocks (overlapping blocks are documented as valid; a
+    later-starting block then ends before an earlier one, so starts and ends are not sorted alike)"""
+    if draw(st.integers(0, 4)):
+        return
+    cands = [b for b in blocks if b[1] - b[0] >= 3]
+    if not cands:
+        return
+    b = draw(st.sampled_from(cands))
+    a = draw(st.integers(b[0] + 1, b[1] - 2))
+    blocks.append([a, draw(st.integers(a + 1, b[1] - 1))])
+    blocks.sort(key=lambda x: (x[0], x[1]))
+
+
 @st.composite
 def strat_obj(draw, tier="quick", kinds=("collection", "collection", "collection", "gene", "fc", "tx", "feat", "vc", "cds")):
     kind = draw(st.sampled_from(kinds))
@@ -330,9 +365,12 @@ def strat_obj(draw, tier="quick", kinds=("collection", "collection", "collection
     elif kind == "tx":
         o = draw(S.transcript_spec(max_exons=4, cds_overlap_prob=8))
         hi = o["exons"][-1][1]
+        if "cds" not in o:
+            _nest(draw, o["exons"])
     elif kind == "feat":
         o = draw(S.feature_spec())
         hi = o["blocks"][-1][1]
+        _nest(draw, o["blocks"])
     else:
         vs = draw(S.variant_specs(2, 30, max_n=3))
         o = {"variants": vs, "variant_collection_name": draw(st.one_of(st.none(), S.IDENT)), "variant_collection_id": draw(st.one_of(st.none(), S.IDENT)),
@@ -364,6 +402,20 @@ def strat_obj(draw, tier="quick", kinds=("collection", "collection", "collection
         o["start"] = draw(st.integers(w_lo, max(w_lo, lo_m)))
         o["end"] = draw(st.integers(hi, max(hi, w_hi)))
     sp["derive_first"] = draw(st.integers(0, 2)) == 0
+    if draw(st.integers(0, 3)) == 0:
+        # identifiers issued by the caller (database keys) rather than digested from the content, on some of the objects
+        def issue(d):
+            if isinstance(d, dict):
+                if any(k_ in d for k_ in ("exons", "blocks", "transcripts", "features", "variants", "sequence")) and "frames" not in d or "exons" in d:
+                    if draw(st.integers(0, 2)) == 0:
+                        d["guid"] = str(draw(st.uuids()))
+                for v_ in d.values():
+                    issue(v_)
+            elif isinstance(d, list):
+                for v_ in d:
+                    issue(v_)
+        issue(o)
+        sp["issued_guids"] = True
     if kind in ("feat", "tx", "gene", "fc", "collection") and draw(st.integers(0, 3)) == 0:
         # flag qualifiers: a key without a value, as Biopython delivers /pseudo ([""]), or with an empty list
         o["qualifiers"] = dict(o.get("qualifiers") or {}, **{draw(st.sampled_from(["pseudo", "partial", "ribosomal_slippage"])): draw(st.sampled_from([[""], [], ["", "x"]]))})
